@@ -162,13 +162,21 @@ def minList : List XR → XR
   | [] => nan
   | a :: l => l.foldl npmin a
 
+/-- `np.cumprod`, started from the running product `acc` -/
+def cumprodFrom (acc : XR) : List XR → List XR
+  | [] => []
+  | a :: l => (acc * a) :: cumprodFrom (acc * a) l
+
 /-- `np.cumprod` -/
-def cumprod (l : List XR) : List XR :=
-  (l.foldl (fun (acc : XR × List XR) a => let p := acc.1 * a; (p, p :: acc.2)) (1, [])).2.reverse
+def cumprod (l : List XR) : List XR := cumprodFrom 1 l
+
+/-- `np.cumsum`, started from the running sum `acc` -/
+def cumsumFrom (acc : XR) : List XR → List XR
+  | [] => []
+  | a :: l => (acc + a) :: cumsumFrom (acc + a) l
 
 /-- `np.cumsum` -/
-def cumsum (l : List XR) : List XR :=
-  (l.foldl (fun (acc : XR × List XR) a => let p := acc.1 + a; (p, p :: acc.2)) (0, [])).2.reverse
+def cumsum (l : List XR) : List XR := cumsumFrom 0 l
 
 def toStr : XR → String
   | fin q => if q.den = 1 then toString q.num else s!"{q.num}/{q.den}"
